@@ -8,8 +8,9 @@ open VibeProof VibeProof.Proto VibeProof.Codec VibeProof.Trigger
   → `(res (ok n)|(err E) (rows R…) (log (tid OLD NEW)…))`
 T    = `(t tid table b|a|i EVENT row|stmt 0|1 WHEN (ACTION…))`
 EVENT= `ins` | `del` | `(upd)` | `(updof c…)`
-WHEN = `none` | `(cmp base|old|new c eq|ne|lt|le|gt|ge k)` | `(raw base|old|new c)`
-ACTION = `(audit 0|1 0|1)` | `(reinsert)` | `(insrow V…)` | `(decr old|new c)` | `(delkey old|new)`
+E = `(lit V)` | `(c base|old|new n)` | `(OP E E)` | `(ite E E E)` | `(coal E E)`
+WHEN = `(expr E)` | `none` | `(cmp base|old|new c eq|ne|lt|le|gt|ge k)` | `(raw base|old|new c)`
+ACTION = `(auditx E)` | `(updx c E E)` | `(delx E)` | `(audit 0|1 0|1)` | `(reinsert)` | `(insrow V…)` | `(decr old|new c)` | `(delkey old|new)`
 STMT = `(ins R…)` | `(upd SEL (c set k)|(c add k)|(c null)…)` | `(del SEL)` | `(delall)`
 SEL  = `(all)` | `(cmp c op k)`
 The depth limit is `MAX_TRIGGER_RECURSION_DEPTH` as extracted from the source.
@@ -79,7 +80,49 @@ def pick (s : Src) (old new : Option Row) : Option Row :=
     | some r => some r
     | none => old
 
-def decAction : Sx → Option Action
+def decTBin : String → Option TBin
+  | "add" => some .add | "sub" => some .sub
+  | "eq" => some .eq | "ne" => some .ne | "lt" => some .lt
+  | "le" => some .le | "gt" => some .gt | "ge" => some .ge
+  | "and" => some .and | "or" => some .or
+  | _ => none
+
+/-- `(lit V)` | `(c base|old|new n)` | `(OP a b)` | `(ite c t e)` | `(coal a b)` -/
+partial def decTExpr : Sx → Option TExpr
+  | .list [.atom "lit", .atom v] => (decValue v).map TExpr.lit
+  | .list [.atom "c", .atom s, .atom n] => do pure (.col (← decSrc s) (← n.toNat?))
+  | .list [.atom "ite", c, t, e] => do pure (.ite (← decTExpr c) (← decTExpr t) (← decTExpr e))
+  | .list [.atom "coal", a, b] => do pure (.coalesce (← decTExpr a) (← decTExpr b))
+  | .list [.atom op, a, b] => do pure (.bin (← decTBin op) (← decTExpr a) (← decTExpr b))
+  | _ => none
+
+/-- WHERE truth of a body statement's predicate on the scanned row `r` -/
+def selOf (e : TExpr) (old new : Option Row) (r : Row) : Bool :=
+  match e.evalWith (envOf old new (some r)) with
+  | .ok (.bool true) => true
+  | _ => false
+
+def decAction (tid : Nat) : Sx → Option Action
+  | .list [.atom "auditx", e] => do
+    let e ← decTExpr e
+    -- INSERT INTO A VALUES (tid, NULL, NULL, NULL, <e>, NULL, NULL)
+    pure (.nested (fun old new =>
+      match e.evalWith (envOf old new none) with
+      | .error er => .error er
+      | .ok v => .ok (.audit { tid := tid, old := none, new := some [v, .null, .null] })))
+  | .list [.atom "updx", .atom c, se, we] => do
+    let c ← c.toNat?
+    let se ← decTExpr se
+    let we ← decTExpr we
+    -- UPDATE T SET Cc = <se> WHERE <we>
+    pure (.nested (fun old new =>
+      .ok (.update (selOf we old new)
+        (fun r => match se.evalWith (envOf old new (some r)) with
+          | .ok v => r.set c v
+          | .error _ => r))))
+  | .list [.atom "delx", we] => do
+    let we ← decTExpr we
+    pure (.nested (fun old new => .ok (.delete (some (selOf we old new)))))
   | .list [.atom "audit", .atom uo, .atom un] => some (.audit (uo == "1") (un == "1"))
   | .list [.atom "reinsert"] =>
     some (.nested (fun _ new => match new with
@@ -117,6 +160,7 @@ def decWhen : Sx → Option (Option WExpr)
     pure (some (.cmp (← decSrc s) (← c.toNat?) (← decCmp op) (← k.toInt?)))
   | .list [.atom "raw", .atom s, .atom c] => do
     pure (some (.raw (← decSrc s) (← c.toNat?)))
+  | .list [.atom "expr", e] => do pure (some (.expr (← decTExpr e)))
   | _ => none
 
 def decEvent : Sx → Option Event
@@ -134,8 +178,9 @@ def decTiming : String → Option Timing
 
 def decTrig : Sx → Option Trig
   | .list [.atom "t", .atom tid, .atom tbl, .atom tm, ev, .atom g, .atom en, w, .list body] => do
-    let acts ← body.mapM decAction
-    pure { tid := ← tid.toNat?, table := ← tbl.toNat?, timing := ← decTiming tm,
+    let tidn ← tid.toNat?
+    let acts ← body.mapM (decAction tidn)
+    pure { tid := tidn, table := ← tbl.toNat?, timing := ← decTiming tm,
            event := ← decEvent ev, gran := if g == "row" then .row else .stmt,
            enabled := en == "1", when := ← decWhen w, body := acts }
   | _ => none
